@@ -63,13 +63,13 @@ def decompress(data, codec, size, deviations=None):
     if name == "BROTLI":
         return bytes(cramjam.brotli.decompress(data))
     if name == "LZ4_RAW":
-        return bytes(cramjam.lz4.decompress_block(data, output_size=size))
+        return bytes(cramjam.lz4.decompress_block(data, size))
     if name == "LZ4":
         # the deprecated LZ4 codec is ambiguous in practice (Hadoop framing vs raw
         # block); mainstream readers try both.  Counted, not judged.
         if deviations is not None:
             deviations["lz4_raw_block_under_LZ4"] = deviations.get("lz4_raw_block_under_LZ4", 0) + 1
-        return bytes(cramjam.lz4.decompress_block(data, output_size=size))
+        return bytes(cramjam.lz4.decompress_block(data, size))
     raise FormatError("codec %s not available" % name)
 
 
